@@ -302,25 +302,27 @@ class TopLevelVisitor(ast.NodeVisitor):
             node (ast.If):
         """
         if isinstance(node.test, ast.Compare):  # pragma: nobranch
+            is_main_guard = False
             try:
                 if IS_PY_GE_312:
-                    if all([
+                    is_main_guard = all([
                         isinstance(node.test.ops[0], ast.Eq),
                         node.test.left.id == '__name__',
                         node.test.comparators[0].value == '__main__',
-                    ]):
-                        # Ignore main block
-                        return
+                    ])
                 else:
-                    if all([
+                    is_main_guard = all([
                         isinstance(node.test.ops[0], ast.Eq),
                         node.test.left.id == '__name__',
                         node.test.comparators[0].s == '__main__',
-                    ]):
-                        # Ignore main block
-                        return
+                    ])
             except Exception:  # nocover
                 pass
+            if is_main_guard:
+                # Ignore main block, but its else branch runs on import
+                for child in node.orelse:
+                    self.visit(child)
+                return
         self.generic_visit(node)  # nocover
 
     # def visit_ExceptHandler(self, node):
